@@ -200,6 +200,9 @@ var (
 	stallTicks = 200
 	stallQuiet = 3 * time.Second
 	caseBudget = 90 * time.Second
+	// doomedFetches: so many chunk fetches of the cursor's height made under a context that was already over (in a case
+	// without an unanswered call, where an expired scan deadline could explain one pass of them) are a verdict
+	doomedFetches = 12
 	// hangCap: an unanswered DA call ends by itself (with a time-out error of the DA client) after this long, for
 	// a scan that sets no deadline of its own
 	hangCap = 40 * time.Second
@@ -418,6 +421,10 @@ func runCase(r *vk.Run, p *world.Produced, c Case) {
 			outcome = "budget"
 			break
 		}
+		if c.Hang == "" && da.CtxDoneGets(n.M.VerifDAHeight()) >= doomedFetches {
+			outcome = "doomed"
+			break
+		}
 		time.Sleep(200 * time.Microsecond)
 	}
 	// a scan that works ahead may have asked for last+1 before it handed over what it found at last: let it
@@ -468,6 +475,10 @@ func runCase(r *vk.Run, p *world.Produced, c Case) {
 		return
 	case "stall":
 		r.Violation("no-stall", fmt.Sprintf("the scan took %d ticks in a row (over %s) without asking the DA layer for anything and without having reached the DA head %d; cursor is at %d", ticksSince-1, time.Since(lastCallAt).Round(time.Millisecond), last, n.M.VerifDAHeight()), wit())
+		return
+	case "doomed":
+		h := n.M.VerifDAHeight()
+		r.Violation("retry-same-height", fmt.Sprintf("the scan stands at DA height %d and has asked %d times for a chunk of that height with a context that was already over when the call was made, while the node is running and no call of this case was left unanswered: the DA layer answers every call made under a live context, so what the node repeats is not a retry - the height (and everything behind it) can never be fetched", h, da.CtxDoneGets(h)), wit())
 		return
 	case "budget":
 		r.Inconclusive(fmt.Sprintf("C09 case %d: the scan did not reach the DA head %d within %s (cursor %d, %d DA calls); no logical stall was seen", c.ID, last, caseBudget, n.M.VerifDAHeight(), len(recs)))
